@@ -838,24 +838,9 @@ theorem client_run (ins : List StepIn) : ∀ (a : Actor), a.core.serverMode = fa
 theorem create_client (cfg : NodeConfig) (hcfg : cfg.serverMode = false) (seed : UInt64) (now : Nat) :
     (Actor.create cfg seed now).core.serverMode = false ∧ (Actor.create cfg seed now).sockServerMode = false := by
   unfold Actor.create
-  simp only
-  have := firewalled_client_stays_client
-    ({ sockServerMode := cfg.serverMode,
-       core := { bootstrap := cfg.bootstrap,
-                 rt := { id := (match cfg.publicIp with
-                   | some ip => (Id.fromIpv4 (rngFill 21 seed).1 ip, (rngFill 21 seed).2)
-                   | none => ((⟨(rngFill 20 seed).1⟩ : Id), (rngFill 20 seed).2)).1 },
-                 srt := { id := (match cfg.publicIp with
-                   | some ip => (Id.fromIpv4 (rngFill 21 seed).1 ip, (rngFill 21 seed).2)
-                   | none => ((⟨(rngFill 20 seed).1⟩ : Id), (rngFill 20 seed).2)).1 },
-                 lastRefresh := now, lastPing := now,
-                 server := Server.new cfg.caps.1 cfg.caps.2.1 cfg.caps.2.2.1 cfg.caps.2.2.2
-                   (match cfg.publicIp with
-                   | some ip => (Id.fromIpv4 (rngFill 21 seed).1 ip, (rngFill 21 seed).2)
-                   | none => ((⟨(rngFill 20 seed).1⟩ : Id), (rngFill 20 seed).2)).2 now,
-                 serverMode := cfg.serverMode } } : Actor) now hcfg hcfg rfl
-  exact this
-
+  split <;>
+  · simp only
+    exact firewalled_client_stays_client _ now hcfg hcfg rfl
 
 /-- non-vacuity: a freshly created client-mode node meets the hypotheses of `client_step` and
     `client_run`, whatever its configuration otherwise -/
